@@ -22,7 +22,7 @@ func zzNumNodes(quick, thorough int) int {
 
 // zzC03 runs one rolling-update sync over n nodes in arbitrary categories and checks
 // the availability budget of property C03.
-func zzC03(n int, percent bool) {
+func zzC03(n int, percent, sharedVariants bool) {
 	cats := make([]int, n)
 	for i := range cats {
 		cats[i] = nondet.Int("cat"+strconv.Itoa(i), 0, zzNumCat-1)
@@ -47,7 +47,7 @@ func zzC03(n int, percent bool) {
 	for i := range cats {
 		cats[i] = int(nondetConc(cats[i]))
 	}
-	params, items := zzParams(ds, rs, cats)
+	params, items := zzParamsV(ds, rs, cats, sharedVariants)
 	client := fakeapi.New()
 
 	res, err := ManageDeployment(client, ds, params, metav1.Now())
@@ -130,11 +130,16 @@ func nondetConc(x int) int {
 	return x
 }
 
-// ZZ_C03_budget: absolute maxUnavailable / maxPodSchedulerFailure.
-func ZZ_C03_budget() { zzC03(zzNumNodes(3, 4), false) }
+// ZZ_C03_budget: absolute maxUnavailable / maxPodSchedulerFailure.  Three nodes; the thorough
+// tier: four nodes with one choice of sub-variants per path.
+func ZZ_C03_budget() { zzC03(zzNumNodes(3, 4), false, true) }
 
 // ZZ_C03_budgetPercent: percentages.
-func ZZ_C03_budgetPercent() { zzC03(zzNumNodes(3, 4), true) }
+func ZZ_C03_budgetPercent() { zzC03(zzNumNodes(3, 4), true, true) }
+
+// ZZ_C03_budgetVariants_thorough: three nodes, every node choosing its own sub-variants
+// (Ready False vs absent, adopted pod without hash, kind of stuck pod, readiness while terminating).
+func ZZ_C03_budgetVariants_thorough() { zzC03(3, false, false) }
 
 // ZZ_C03_percentLarge: "resolved against the number of targeted nodes, rounding up" on clusters
 // large enough for rounding to matter: N targeted nodes, each with an outdated available pod
